@@ -68,6 +68,7 @@ type phase struct {
 	// (run from the engine wrapper just before the first engine delete that targets the key)
 	window string
 	burst  int // number of additional back-to-back compactions right after this one
+	ahead  int // viaBackend: the request names committed + ahead, a revision not handed out yet
 }
 
 type scanPlan struct {
@@ -75,6 +76,9 @@ type scanPlan struct {
 	ttl    int
 	pre    []lib.CsWrite
 	phases []phase
+	// viaBackend: the compactions are Backend.Compact requests (the backend's own scanner, whose TTL is the events
+	// TTL in whole seconds) instead of calls of a scanner with a millisecond TTL
+	viaBackend bool
 }
 
 func genScanPlan(r *lib.Rand, engine string, ttl int, corpus int) scanPlan {
@@ -98,6 +102,13 @@ func genScanPlan(r *lib.Rand, engine string, ttl int, corpus int) scanPlan {
 	case 3: // an Update of an expiring Event lands between the snapshot and the compare-and-delete of its index
 		p.pre = []lib.CsWrite{mk("create", "/registry/events/default/e1"), mk("create", "/registry/events/kube-system/e2"), mk("create", "/registry/pods/a")}
 		p.phases = []phase{{gap: 0}, {gap: ttl + 150, window: "/registry/events/default/e1"}, {gap: ttl + 150}}
+		return p
+	case 5: // a Compact request ahead of the committed revision, an Event created afterwards, and a compaction once that
+		// request's mark is TTL old: the mark covers only what existed when it was made - the young Event stays
+		p.viaBackend = true
+		p.pre = []lib.CsWrite{mk("create", "/registry/events/default/e1"), mk("create", "/registry/pods/a")}
+		p.phases = []phase{{gap: 0, ahead: 50}, {gap: ttl / 2, writes: []lib.CsWrite{mk("create", "/registry/events/default/e3"), mk("create", "/registry/events/kube-system/e2")}},
+			{gap: ttl/2 + 300}, {gap: ttl/2 + 300, ahead: 7}, {gap: ttl + 300}}
 		return p
 	case 4: // many marks inside one TTL window: each mark keeps its own time
 		p.pre = []lib.CsWrite{mk("create", "/registry/events/default/e1"), mk("create", "/registry/pods/a")}
@@ -319,7 +330,16 @@ func runScan(p scanPlan, scratch string) (o out) {
 			}
 			a := time.Since(t0)
 			last = time.Now()
-			sc.Compact(context.Background(), enc(prefix+"/"), enc(prefix+"0"), R)
+			cur, req := be.B.GetCurrentRevision(), R
+			if p.viaBackend {
+				req = R + uint64(ph.ahead)
+				if ph.ahead == 0 && ph.back == 0 && b%2 == 1 {
+					req = 0
+				}
+				_, _ = be.B.Compact(context.Background(), req)
+			} else {
+				sc.Compact(context.Background(), enc(prefix+"/"), enc(prefix+"0"), R)
+			}
 			bb := time.Since(t0)
 			windowHook = nil
 			spans = append(spans, span{a, bb})
@@ -330,9 +350,17 @@ func runScan(p scanPlan, scratch string) (o out) {
 			}
 			d, rm := lib.CsDiff(prev, now, tab)
 			expired += len(rm)
-			steps = append(steps, lib.App("SCompact", lib.N(uint64(a.Milliseconds())), lib.N(R), lib.Str(prefix+"/"), lib.Str(prefix+"0"), lib.List(ocs), d))
-			if b == 0 || len(rm) > 0 {
-				js = append(js, map[string]interface{}{"op": "scanner.Compact", "rev": R, "at_ms": a.Milliseconds(), "took_ms": (bb - a).Milliseconds(), "removed_positions": rm, "burst_of": ph.burst + 1})
+			if p.viaBackend {
+				steps = append(steps, lib.App("SCompactReq", lib.N(uint64(a.Milliseconds())), lib.N(cur), lib.N(req), lib.Str(prefix+"/"), lib.Str(prefix+"0"), lib.List(ocs), d))
+				js = append(js, map[string]interface{}{"op": "Backend.Compact", "requested": req, "committed": cur, "at_ms": a.Milliseconds(), "took_ms": (bb - a).Milliseconds(), "removed_positions": rm})
+				if req > cur {
+					o.outcomes = append(o.outcomes, "compact-request-ahead-of-committed")
+				}
+			} else {
+				steps = append(steps, lib.App("SCompact", lib.N(uint64(a.Milliseconds())), lib.N(R), lib.Str(prefix+"/"), lib.Str(prefix+"0"), lib.List(ocs), d))
+				if b == 0 || len(rm) > 0 {
+					js = append(js, map[string]interface{}{"op": "scanner.Compact", "rev": R, "at_ms": a.Milliseconds(), "took_ms": (bb - a).Milliseconds(), "removed_positions": rm, "burst_of": ph.burst + 1})
+				}
 			}
 			prev = now
 		}
@@ -626,6 +654,11 @@ func main() {
 			jobs = append(jobs, func() out { return runScan(p, args.Scratch) })
 		}
 	}
+	// Compact requests through the Backend, one of them ahead of the committed revision (TTL = the events TTL, 2 s)
+	for _, e := range []string{lib.EngMem, lib.EngTiKV} {
+		p := genScanPlan(rnd, e, eventsTTLSeconds*1000, 5)
+		jobs = append(jobs, func() out { return runScan(p, args.Scratch) })
+	}
 	if args.Tier != "quick" { // bursts of >= 70 marks under TTLs of seconds
 		for _, e := range []string{lib.EngMem, lib.EngTiKV} {
 			for _, t := range []int{2000, 3000} {
@@ -728,7 +761,7 @@ func main() {
 	if skipped*3 > len(outs) {
 		w.Fail(lib.ImplFailure{CaseID: -1, What: fmt.Sprintf("generator degenerate: %d of %d cases had indeterminate timing", skipped, len(outs))})
 	}
-	if err := w.Finish("scanner cases (scripted: substring look-alikes; update/delete before expiry with a smaller later compaction revision; a client Update landing between the scan's snapshot and the compare-and-delete of the index; a burst of >= 70 marks inside one TTL window followed by a pause, a new Event, and compactions just after the burst's TTL) and random ones: writes over 9 keys (Event keys, look-alikes such as /registry/pods/events/p1, /registry/eventsx/a, /registry/events, non-event keys, a key outside the prefix), 3-5 scanner.Compact calls with real sleeps chosen so that every (mark, later call) pair is >= 100 ms away from the 300 ms TTL, timestamps recorded around every call, cases with a measured age within 30 ms of the TTL skipped as indeterminate (after 3 tries); TTL-choice cases: per pool key one Create of a fresh key and one Create over a tombstoned index, with the engine's ttl arguments of every batch operation recorded, and per pool key Create / Update with Lease 0, 1, 5 and Delete with the ttl arguments of every batch operation; engine-TTL cases: scripted create/update/delete/re-create (incl. create, delete, create and create, update, delete, create with no compaction in between, left alone past the TTL; non-event keys updated with a Lease) under a 2 s TTL on memkv and Badger, followed by Get + Create on every key of the script, with dumps >= 250 ms away from every expiry instant; distinct = SHA-256 of the Coq case; non-trivial (scanner cases) = a compaction removed at least one record"); err != nil {
+	if err := w.Finish("scanner cases (scripted: substring look-alikes; update/delete before expiry with a smaller later compaction revision; a client Update landing between the scan's snapshot and the compare-and-delete of the index; a burst of >= 70 marks inside one TTL window followed by a pause, a new Event, and compactions just after the burst's TTL) and random ones: writes over 9 keys (Event keys, look-alikes such as /registry/pods/events/p1, /registry/eventsx/a, /registry/events, non-event keys, a key outside the prefix), 3-5 scanner.Compact calls with real sleeps chosen so that every (mark, later call) pair is >= 100 ms away from the 300 ms TTL, timestamps recorded around every call, cases with a measured age within 30 ms of the TTL skipped as indeterminate (after 3 tries); scripts through Backend.Compact with a request ahead of the committed revision (events TTL 2 s, memkv and TiKV mock); TTL-choice cases: per pool key one Create of a fresh key and one Create over a tombstoned index, with the engine's ttl arguments of every batch operation recorded, and per pool key Create / Update with Lease 0, 1, 5 and Delete with the ttl arguments of every batch operation; engine-TTL cases: scripted create/update/delete/re-create (incl. create, delete, create and create, update, delete, create with no compaction in between, left alone past the TTL; non-event keys updated with a Lease) under a 2 s TTL on memkv and Badger, followed by Get + Create on every key of the script, with dumps >= 250 ms away from every expiry instant; distinct = SHA-256 of the Coq case; non-trivial (scanner cases) = a compaction removed at least one record"); err != nil {
 		fmt.Fprintln(os.Stderr, err)
 		os.Exit(2)
 	}
